@@ -95,10 +95,17 @@ macro_rules! impl_bit_value {
             }
             #[inline]
             fn sign_fix_rev(val: Self::ValueType, len: usize) -> Self::ValueType {
-                if val & (1 << (len - 1)) == 0 {
-                    val
+                // the magnitude has len - 1 bits; a zero magnitude is always written as +0
+                let mag_mask: $ptype = !(-1 << (len - 1));
+                if val >= 0 {
+                    val & mag_mask
                 } else {
-                    ((!val) + 1) | (1 << (len - 1))
+                    let mag = val.wrapping_neg() & mag_mask;
+                    if mag == 0 {
+                        0
+                    } else {
+                        mag | (1 << (len - 1))
+                    }
                 }
             }
         }
